@@ -160,9 +160,7 @@ func TestVerifC14Buffered(t *testing.T) {
 	cs := vfNewCases("Run_C14", 50)
 	curDesc := map[string]any{}
 	zzc14.OnHang(func(label, stacks string) {
-		idx := cs.Add(zzc14.HangTerm("CBuffered"), curDesc, "hang")
-		cs.Fail(idx, "the case never settled (goroutines blocked outside synctest's view): "+label, stacks)
-		_ = cs.Flush()
+		zzc14.WriteHang(vfOutDir(), label, curDesc, stacks)
 	})
 	root := vfNewRand(seed)
 	for i := 0; i < n; i++ {
